@@ -510,6 +510,12 @@ class BusExternalAuthenticator :
     def step(self, arg):
         if not self.creds:
             return ('REJECT', 'Unix credentials not available')
+        try:
+            self.getUserName()
+        except (KeyError, OverflowError):
+            # The peer's uid has no passwd entry (-1: the kernel had no
+            # credentials for this peer). Saying OK now would make BEGIN fail
+            return ('REJECT', 'Unknown peer uid')
         if not self.ok:
             self.ok = True
             return ('CONTINUE', '')
